@@ -16,7 +16,7 @@ GH = [("unsigned long", "sbv_n")]
 UT = {8: "unsigned char", 16: "unsigned short", 32: "unsigned int", 64: "unsigned long"}
 ST = {8: "signed char", 16: "short", 32: "int", 64: "long"}
 PRODUCT_BACKENDS = ["kissat", "z3", "cvc5", "minisat"]
-SCOPE = 1 << 20  # small scope for |n| and blockLength where a 64-bit signed product must not overflow (iterator arithmetic)
+SCOPE = 1 << int(os.environ.get("SBV_SCOPE_BITS", "31"))  # scope for |n| and blockLength (2^31: the product stays below 2^62) where a 64-bit signed product must not overflow (iterator arithmetic)
 
 
 def pair_info(P):
